@@ -3333,3 +3333,197 @@ func ruleStatusClasses(c *Ctx) {
 		c.check(bad == "", row.fn, "a meta status is sorted into its class at the class borders ("+strings.Join(want, ", ")+")", p.Pos(fn.Pos()), "comparisons flip at "+strings.Join(got, ", "), bad+": a status on the border is answered as a member of the neighbouring class")
 	}
 }
+
+// ---------------------------------------------------------------------------
+// DOM/small-guards: guards of one line each that the mutation sweep showed to
+// be covered by nothing (suite or rule). Each is a dominance obligation over a
+// named construct; the table says which property it serves.
+//  disposed-error   (C01, C07): Subscription.Error() returns the stored load error only for a
+//                   subscription that is not disposed — a continuation waiting on a child must not
+//                   answer a request with the data of a subscription that no longer exists.
+//  empty-payload    (C06, C03): DecodeEvent decodes only a non-empty payload; reaccess and delete
+//                   events have none, and a decode error drops them.
+//  reset-subject    (C14, C15): a token reset without subject reaches no connection (the auth
+//                   request it causes would go to the empty subject).
+//  start-once       (C20): Service.start creates the stop channel only when there is none — a
+//                   second Start on a running service must not replace it.
+//  canonical-only   (C17): Meta.Canonicalize removes the key it has re-filed under its canonical
+//                   spelling: the protected-header filter matches canonical spelling only.
+func ruleSmallGuards(which string) func(c *Ctx) {
+	return func(c *Ctx) {
+		p := c.P
+		switch which {
+		case "disposed-error":
+			fn := p.Fn("(*server.Subscription).Error")
+			fState, fErr := p.Field("server.Subscription.state"), p.Field("server.Subscription.err")
+			kDisp := p.ConstInt("server.stateDisposed", -1)
+			if fn == nil || fState == nil || fErr == nil || kDisp < 0 {
+				c.undecided("(*server.Subscription).Error", "anchor", "-", "not found")
+				return
+			}
+			alive := fieldCmpGuard(fState, 8, func(v int64) bool { return v != kDisp })
+			n := 0
+			for _, in := range instrsOf(fn) {
+				r, ok := in.(*ssa.Return)
+				if !ok || len(r.Results) != 1 {
+					continue
+				}
+				if f, _ := fieldLoad(r.Results[0]); f != fErr {
+					continue
+				}
+				n++
+				c.inst(1)
+				c.check(p.guardedBy(r, alive) != nil, fnName(fn), "the stored load error (or nil) is reported only for a subscription that is not disposed", p.InstrPos(r), "behind state != stateDisposed",
+					"Error() reports 'no error' for a disposed subscription: a request waiting on it is answered with the data of a subscription the connection no longer has")
+			}
+			if n == 0 {
+				c.note("Error() does not return the stored error directly")
+			}
+		case "empty-payload":
+			fn := p.Fn("codec.DecodeEvent")
+			if fn == nil {
+				c.undecided("codec.DecodeEvent", "anchor", "-", "not found")
+				return
+			}
+			nonEmpty := func(i *ssa.If) (bool, bool) {
+				x, op, k, ok := cmpConst(i.Cond)
+				if !ok || k != 0 {
+					return false, false
+				}
+				cl, ok := x.(*ssa.Call)
+				if !ok || !isBuiltinNamed(cl, "len") || len(cl.Call.Args) != 1 {
+					return false, false
+				}
+				if _, isP := cl.Call.Args[0].(*ssa.Parameter); !isP {
+					return false, false
+				}
+				switch op {
+				case token.EQL, token.LEQ:
+					return false, true
+				case token.NEQ, token.GTR:
+					return true, true
+				}
+				return false, false
+			}
+			n := 0
+			for _, g := range p.withNewHelpers(fn) {
+				for _, call := range callsIn(g) {
+					if m := calleeFunc(call.Common()); m != nil && m.Pkg() != nil && m.Pkg().Path() == "encoding/json" && m.Name() == "Unmarshal" {
+						n++
+						c.inst(1)
+						c.check(p.guardedBy(call, nonEmpty) != nil, fnName(g), "an event without payload is an event without data, not a malformed one", p.InstrPos(call), "decode behind len(payload) != 0",
+							"an empty payload is handed to the JSON decoder, which fails: reaccess and delete events (which have none) are dropped as malformed")
+					}
+				}
+			}
+			if n == 0 {
+				c.note("DecodeEvent does not call json.Unmarshal")
+			}
+		case "reset-subject":
+			fn := p.Fn("(*rescache.Cache).handleSystemTokenReset")
+			fSubj := p.Field("codec.SystemTokenReset.Subject")
+			if fn == nil || fSubj == nil {
+				c.undecided("(*rescache.Cache).handleSystemTokenReset", "anchor", "-", "not found")
+				return
+			}
+			hasSubject := func(i *ssa.If) (bool, bool) {
+				b, ok := i.Cond.(*ssa.BinOp)
+				if !ok || (b.Op != token.EQL && b.Op != token.NEQ) {
+					return false, false
+				}
+				var other ssa.Value
+				if f, _ := fieldLoad(b.X); f == fSubj {
+					other = b.Y
+				} else if f, _ := fieldLoad(b.Y); f == fSubj {
+					other = b.X
+				}
+				if s, ok := constString(other); !ok || s != "" {
+					return false, false
+				}
+				return b.Op == token.NEQ, true
+			}
+			n := 0
+			for _, g := range p.withNewHelpers(fn) {
+				for _, call := range callsIn(g) {
+					if cc := call.Common(); cc.IsInvoke() && cc.Method.Name() == "TokenReset" {
+						n++
+						c.inst(1)
+						c.check(p.guardedBy(call, hasSubject) != nil, fnName(g), "a token reset without subject reaches no connection", p.InstrPos(call), "behind Subject != \"\"",
+							"connections are told to re-authenticate against the empty subject: an auth request carrying cid and token goes out on subject \"\"")
+					}
+				}
+			}
+			if n == 0 {
+				c.viol(fnName(fn), "a token reset without subject reaches no connection", p.Pos(fn.Pos()), "no TokenReset fan-out found: anchor lost")
+			}
+		case "start-once":
+			fn := p.Fn("(*server.Service).start")
+			fStop := p.Field("server.Service.stop")
+			if fn == nil || fStop == nil {
+				c.undecided("(*server.Service).start", "anchor", "-", "not found")
+				return
+			}
+			none := func(i *ssa.If) (bool, bool) {
+				for _, d := range []bool{true, false} {
+					if x, nn, ok := nilTest(i, d); ok && !nn {
+						if f, _ := fieldLoad(x); f == fStop {
+							return d, true
+						}
+					}
+				}
+				return false, false
+			}
+			n := 0
+			for _, g := range p.withNewHelpers(fn) {
+				for _, in := range instrsOf(g) {
+					st, ok := in.(*ssa.Store)
+					if !ok {
+						continue
+					}
+					fa, ok := st.Addr.(*ssa.FieldAddr)
+					if !ok || fieldOfAddr(fa) != fStop || isNilConst(st.Val) {
+						continue
+					}
+					n++
+					c.inst(1)
+					c.check(p.guardedUp(st, none, 0), fnName(g), "a stop channel is created only when the service has none (Start on a running service is a no-op)", p.InstrPos(st), "behind stop == nil",
+						"Start on a running service replaces the stop channel (its holders are never notified), starts the parts again and — as the cache refuses a second start — stops the whole gateway")
+				}
+			}
+			if n == 0 {
+				c.viol(fnName(fn), "a stop channel is created only when the service has none", p.Pos(fn.Pos()), "start creates no stop channel: anchor lost")
+			}
+		case "canonical-only":
+			fn := p.Fn("(*codec.Meta).Canonicalize")
+			if fn == nil {
+				c.undecided("(*codec.Meta).Canonicalize", "anchor", "-", "not found")
+				return
+			}
+			c.inst(1)
+			// every path of the loop body that files a value under another key deletes the old key
+			refiles, deletes := 0, 0
+			var upd *ssa.MapUpdate
+			for _, g := range p.withNewHelpers(fn) {
+				for _, in := range instrsOf(g) {
+					if mu, ok := in.(*ssa.MapUpdate); ok {
+						refiles++
+						upd = mu
+					}
+					if _, ok := isBuiltinCall(in, "delete"); ok {
+						deletes++
+						_ = in
+					}
+				}
+			}
+			bad := ""
+			if refiles > 0 && deletes == 0 {
+				bad = "a header is filed under its canonical key and the non-canonical key is kept: the protected-header filter, which matches canonical spelling, lets the non-canonical copy through"
+			}
+			pos := p.Pos(fn.Pos())
+			if upd != nil {
+				pos = p.InstrPos(upd)
+			}
+			c.check(bad == "", fnName(fn), "a header re-filed under its canonical key leaves no copy under the old key", pos, fmt.Sprintf("%d re-filing store(s), %d delete(s)", refiles, deletes), bad)
+		}
+	}
+}
